@@ -725,7 +725,15 @@ def _task_serials(task):
     ctor = [lambda: M.SignalMessage('/a', 'S', 'a.b'),
             lambda: M.MethodCallMessage('/a', 'M'),
             lambda: M.MethodReturnMessage(5),
-            lambda: M.ErrorMessage('a.b.E', 5)]
+            lambda: M.ErrorMessage('a.b.E', 5),
+            lambda: M.SignalMessage('/a', 'S', 'a.b', signature='s',
+                                    body=['x']),
+            lambda: M.MethodCallMessage('/a', 'M', signature='u', body=[1]),
+            lambda: M.MethodReturnMessage(5, signature='as', body=[['y']]),
+            lambda: M.ErrorMessage('a.b.E', 5, signature='s', body=['t'])]
+    want_fields = [{'path', 'member', 'interface'}, {'path', 'member'},
+                   {'reply_serial'}, {'error_name', 'reply_serial'}]
+    want_fields = want_fields + [f | {'signature'} for f in want_fields]
     # constructions that are refused, at every stage of the encoding (body
     # not fitting its signature, value out of range, NUL in a string,
     # invalid names, invalid path): they must not disturb the numbering of
@@ -741,7 +749,14 @@ def _task_serials(task):
                lambda: M.ErrorMessage('a.b.E', 5, signature='as',
                                       body=[[1]]),
                lambda: M.SignalMessage('/a', 'S', 'a.b', signature='(ii)',
-                                       body=[7])]
+                                       body=[7]),
+               # descriptors in messages that have no descriptor list
+               lambda: M.SignalMessage('/a', 'S', 'a.b', signature='h',
+                                       body=[5]),
+               lambda: M.MethodReturnMessage(5, signature='sh',
+                                             body=['x', 3]),
+               lambda: M.ErrorMessage('a.b.E', 5, signature='ah',
+                                      body=[[4, 5]])]
     res.count('states')
     res.count('nontrivial')
     for i in range(n):
@@ -752,11 +767,20 @@ def _task_serials(task):
                     seen.add(refused[(i + k) % len(refused)]().serial)
                 except Exception:
                     pass
-        m = ctor[i % 4]()
+        m = ctor[i % 8]()
         ser = m.serial
-        if i in marks or i - 1 in marks or i + 1 in marks:
+        if i < 3000 or i in marks or i - 1 in marks or i + 1 in marks:
             res.count('evaluations')
             p = R.parse_message(m.rawMessage)
+            if set(p['fields']) != want_fields[i % 8] or \
+                    p['unknown_fields']:
+                res.violation('%s/serials/header-fields' % PROP,
+                              'message %d of the process (a %s built after '
+                              'refused constructions) carries the header '
+                              'fields %r, expected %r'
+                              % (i, type(m).__name__, sorted(p['fields']),
+                                 sorted(want_fields[i % 8])), rep, size=1)
+                break
             if p['serial'] != ser:
                 res.violation('%s/serials/attribute' % PROP,
                               'message %d of the process: serial attribute '
